@@ -143,7 +143,7 @@ Proof.
       try (exists kvs; split; [exact H | right; reflexivity]).
     destruct (hget h l) as [[kl| | | |]|] eqn:El;
       try (exists kvs; split; [exact H | right; reflexivity]).
-    cbn [fst hset hget].
+    cbn [fst]. rewrite hget_hset.
     destruct (N.eqb_spec d l) as [->|Hne].
     + eexists. split; [reflexivity|]. left. split; reflexivity.
     + exists kvs. split; [exact H | right; reflexivity].
